@@ -37,6 +37,10 @@ func genC41(g *Gen) {
 	}
 	g.Count("steer:longkey-control")
 	g.Op("longkey", "0 %d", g.R.U64()>>1)
+	for _, ms := range []int{10, 30} {
+		g.Count("steer:delivery-quiesce")
+		g.Op("quiesce", "%d %d", ms, g.R.U64()>>1)
+	}
 	for _, c := range [][3]int{{2, 2, 30}, {2, 3, 30}, {1, 1, 20}, {3, 3, 30}, {2, 1, 30}, {2, 0, 30}} {
 		if c[1] >= c[0] {
 			g.Count("steer:gwstop-workers-pinned")
@@ -298,6 +302,9 @@ func (*c41Runner) Step(op string) string {
 	f := strings.Fields(op)
 	if len(f) > 0 && f[0] == "longkey" {
 		return c41LongKey(f[1:])
+	}
+	if len(f) > 0 && f[0] == "quiesce" {
+		return c41Quiesce(f[1:])
 	}
 	if len(f) > 0 && f[0] == "gwstop" {
 		return c41GwStop(f[1:])
